@@ -934,7 +934,19 @@ def run(ctx):
     import time
     quick = ctx.tier == 'quick'
     t0 = time.time()
-    tie_names(ctx)
+
+    def tie_phase(name, fn, *args, **kw):
+        # The tie phases evaluate the Coq model (Gen/C20Src.v included).  When the translator refuses the
+        # source or the model does not build, the proof step has already reported that; the implementation-only
+        # searches below must still run so that a concrete schedule pair is found when one exists.
+        try:
+            fn(*args, **kw)
+        except Exception as e:
+            import traceback
+            ctx.count('tie_phase_unavailable', name)
+            ctx.model_mismatch('tie phase %s could not be evaluated (model unavailable): %s' % (name, str(e)[-300:]),
+                               {'phase': name, 'error': traceback.format_exc()[-1500:]})
+    tie_phase('tie_names', tie_names, ctx)
     ctx.notes.append('tie_names %.1fs' % (time.time() - t0))
     classes = ['plain', 'sani', 'zeros', 'both', 'memtie', 'samename', 'case', 'blif', 'iscas', 'genlike', 'cond',
                'blif', 'cond']
@@ -944,9 +956,9 @@ def run(ctx):
     ctx.notes.append('export workers done at %.1fs' % (time.time() - t0))
     search_exports(ctx, exp_res, textdir, specs)
     ctx.notes.append('search_exports done at %.1fs' % (time.time() - t0))
-    tie_emitters(ctx, exp_res, textdir, specs, per_design=1 if quick else 2)
+    tie_phase('tie_emitters', tie_emitters, ctx, exp_res, textdir, specs, per_design=1 if quick else 2)
     ctx.notes.append('tie_emitters done at %.1fs' % (time.time() - t0))
-    tie_trace_bytes(ctx, exp_res, textdir, specs, per_design=1 if quick else 2)
+    tie_phase('tie_trace_bytes', tie_trace_bytes, ctx, exp_res, textdir, specs, per_design=1 if quick else 2)
     ctx.notes.append('tie_trace_bytes done at %.1fs' % (time.time() - t0))
     pspecs = make_specs(ctx, 9 if quick else 60, 'p', ['plain', 'zeros', 'sani'])
     pconfigs = make_configs(ctx, 2 if quick else 4, [0, 4])
